@@ -19,6 +19,16 @@ impl Step {
     }
 }
 
+/// a count absorbed as an integer: u64 or u32, little or big endian, all count as a full encoding
+fn int_payloads(v: u64) -> Vec<Vec<u8>> {
+    let mut out = vec![v.to_le_bytes().to_vec(), v.to_be_bytes().to_vec()];
+    if v <= u32::MAX as u64 {
+        out.push((v as u32).to_le_bytes().to_vec());
+        out.push((v as u32).to_be_bytes().to_vec());
+    }
+    out
+}
+
 fn point_step<G: AffineRepr>(name: &str, p: &G) -> Step {
     // compressed or uncompressed both count as a full encoding
     Step::Append { name: name.to_string(), payloads: vec![pt_bytes_unc(p), pt_bytes(p)] }
@@ -51,7 +61,7 @@ pub fn expected_steps_ordered<G: AffineRepr>(prog: &Program, commitments: &[G], 
             _ => {}
         }
     }
-    s.push(Step::Append { name: "m".into(), payloads: vec![(vj as u64).to_le_bytes().to_vec()] });
+    s.push(Step::Append { name: "m".into(), payloads: int_payloads(vj as u64) });
     for i in 0..3 {
         s.push(point_step(POINT_NAMES[i], &parts.pts[i]));
     }
@@ -89,7 +99,7 @@ pub fn expected_steps_ordered<G: AffineRepr>(prog: &Program, commitments: &[G], 
     s.push(Step::Challenge { name: "w".into() });
     s.push(any("dom-sep:ipp"));
     let n = 1u64 << parts.l.len();
-    s.push(Step::Append { name: "ipp n".into(), payloads: vec![n.to_le_bytes().to_vec()] });
+    s.push(Step::Append { name: "ipp n".into(), payloads: int_payloads(n) });
     for j in 0..parts.l.len() {
         s.push(point_step(&format!("L[{}]", j), &parts.l[j]));
         s.push(point_step(&format!("R[{}]", j), &parts.r[j]));
